@@ -86,23 +86,24 @@ def switch_shared_case() -> Spec:
     ], "A", "O")
 
 
-def switch_two_deciders(deep: bool = False) -> Spec:
+def switch_two_deciders(deep: int = 0) -> Spec:
     """Two switches with DIFFERENT deciders and different consumers share the case X: the second switch may resolve
-    while X is still in flight for the first one (it must then be woken when X finishes)."""
+    while X is still in flight for the first one (its consumer must then be woken when X finishes).  In the deep
+    variants one of the consumers (1: U, 2: V) also waits for a side chain Q1->Q2->Q3, so the manager's launch loop is
+    already parked on the OTHER switch's consumer when that happens (both variants: the launch order of the two
+    switches follows the declaration order)."""
     nodes = [
         Node("A"),
         Node("S1", (("a", In("A")),), labels=("l1", "l2")),
         Node("S2", (("a", In("A")),), labels=("l1", "l2")),
         Node("X", (("a", In("A")),)), Node("Y", (("a", In("A")),)), Node("Z", (("a", In("A")),)),
-        Node("U", (("v", Sw("S1", (("l1", "X"), ("l2", "Y")), "sw1")),)),
-        Node("V", (("v", Sw("S2", (("l1", "X"), ("l2", "Z")), "sw2")),)),
     ]
     if deep:
-        nodes += [Node("U2", (("u", In("U")),)), Node("U3", (("u", In("U2")),)),
-                  Node("O", (("u", In("U3")), ("v", In("V"))))]
-    else:
-        nodes += [Node("O", (("u", In("U")), ("v", In("V"))))]
-    return Spec("switch_two_deciders" + ("_deep" if deep else ""), nodes, "A", "O", dur_nodes=("S1", "S2", "X"))
+        nodes += [Node("Q1", (("a", In("A")),)), Node("Q2", (("q", In("Q1")),)), Node("Q3", (("q", In("Q2")),))]
+    up = (("v", Sw("S1", (("l1", "X"), ("l2", "Y")), "sw1")),) + ((("q", In("Q3")),) if deep == 1 else ())
+    vp = (("v", Sw("S2", (("l1", "X"), ("l2", "Z")), "sw2")),) + ((("q", In("Q3")),) if deep == 2 else ())
+    nodes += [Node("U", up), Node("V", vp), Node("O", (("u", In("U")), ("v", In("V"))))]
+    return Spec("switch_two_deciders" + ("_deep%d" % deep if deep else ""), nodes, "A", "O", dur_nodes=("S1", "S2", "X"))
 
 
 def switch_unnamed_same_decider() -> Spec:
@@ -242,14 +243,15 @@ def oneof_diamond_shared() -> Spec:
 
 
 def oneof_shared_failing_ancestor() -> Spec:
-    """Both candidates consume the same fallible node H: when H fails, both candidates fail (H's failure must stay
-    visible to the second candidate's sub-pipeline although H is already 'processed')."""
+    """The first two candidates consume the same fallible node H, the third is healthy (and may be slow): when H
+    fails, candidates 1 and 2 fail without being invoked (H's failure must stay visible to the second candidate's
+    sub-pipeline although H is already 'processed') and the third one wins."""
     return Spec("oneof_shared_failing_ancestor", [
         Node("A"),
         Node("H", (("a", In("A")),), kinds=F),
-        Node("C1", (("h", In("H")),)), Node("C2", (("h", In("H")),)),
-        Node("O", (("v", OneOf(("C1", "C2"))),)),
-    ], "A", "O")
+        Node("C1", (("h", In("H")),)), Node("C2", (("h", In("H")),)), Node("C3", (("a", In("A")),)),
+        Node("O", (("v", OneOf(("C1", "C2", "C3"))),)),
+    ], "A", "O", dur_nodes=("H", "C2", "C3"))
 
 
 def oneof_with_switch_unknown() -> Spec:
